@@ -142,6 +142,15 @@ def histories_exhaustive(name, max_len, n_values):
         yield from itertools.product(ops, repeat=n)
 
 
+def histories_cached_triples(name, n_values):
+    """every history of exactly 3 cached constructions (the shortest shape in which a cached entry can be
+    damaged by a second operation and observed by a third)"""
+    import itertools
+
+    ops = [o for o in T.wf_ops(name, with_runs=False) if o[1] < n_values and o[0] == "C" and o[3]]
+    yield from itertools.product(ops, repeat=3)
+
+
 def histories_sampled(name, count, seed):
     rng = random.Random(f"{seed}-{name}")
     ops = T.wf_ops(name, with_runs=True)
@@ -176,7 +185,8 @@ def run(ctx):
     max_len = ctx.pick(2, 3)
     dom = ctx.domain(
         "construct-histories",
-        bound=f"per workflow ({', '.join(pool)}): every history of <= {max_len} operations over C(cache)/C(dont_cache)/G x 2 input value sets x its lazy sets (<= 4: none, single fields, all)",
+        bound=f"per workflow ({', '.join(pool)}): every history of <= {max_len} operations over C(cache)/C(dont_cache)/G x 2 input value sets x its lazy sets (<= 4: none, single fields, all)"
+        + ("" if ctx.thorough else "; plus every history of exactly 3 cached C operations"),
         rule="one real history per case (cache cleared before); non-trivial = the history has >= 2 operations (cache interaction possible)",
         exhaustive=True,
     )
@@ -190,6 +200,9 @@ def run(ctx):
     for name in pool:
         for h in histories_exhaustive(name, max_len, 2):
             jobs.append((dom, name, tuple(h)))
+        if max_len < 3:
+            for h in histories_cached_triples(name, 2):
+                jobs.append((dom, name, tuple(h)))
         for h in histories_sampled(name, ctx.pick(40, 400), ctx.seed):
             jobs.append((dom2, name, h))
     with mp.get_context("fork").Pool(ctx.pick(4, 8)) as pl:
